@@ -120,6 +120,10 @@ type RWMutex struct {
 	writer  bool
 	readers int
 	waiters []*kernel.Task
+	// race-annotation addresses, used exactly like sync.RWMutex uses its two
+	// semaphores: readerSem is released by Unlock and acquired by RLock and
+	// Lock; writerSem is release-merged by RUnlock and acquired by Lock
+	readerSem, writerSem byte
 }
 
 //go:norace
@@ -130,6 +134,8 @@ func (m *RWMutex) Lock() {
 		return
 	}
 	if w.Dead() {
+		kernel.RaceAcquire(unsafe.Pointer(&m.readerSem))
+		kernel.RaceAcquire(unsafe.Pointer(&m.writerSem))
 		return
 	}
 	t := w.Me()
@@ -143,7 +149,8 @@ func (m *RWMutex) Lock() {
 		w.Block(t, "rwmutex.lock", "rwmutex")
 	}
 	m.writer = true
-	kernel.RaceAcquire(unsafe.Pointer(m))
+	kernel.RaceAcquire(unsafe.Pointer(&m.readerSem))
+	kernel.RaceAcquire(unsafe.Pointer(&m.writerSem))
 }
 
 //go:norace
@@ -154,13 +161,14 @@ func (m *RWMutex) Unlock() {
 		return
 	}
 	if w.Dead() {
+		kernel.RaceRelease(unsafe.Pointer(&m.readerSem))
 		m.writer = false
 		return
 	}
 	if !m.writer {
 		panic("sync: Unlock of unlocked RWMutex")
 	}
-	kernel.RaceRelease(unsafe.Pointer(m))
+	kernel.RaceRelease(unsafe.Pointer(&m.readerSem))
 	m.writer = false
 	m.wakeAll(w)
 }
@@ -182,6 +190,7 @@ func (m *RWMutex) RLock() {
 		return
 	}
 	if w.Dead() {
+		kernel.RaceAcquire(unsafe.Pointer(&m.readerSem))
 		return
 	}
 	t := w.Me()
@@ -195,7 +204,7 @@ func (m *RWMutex) RLock() {
 		w.Block(t, "rwmutex.rlock", "rwmutex")
 	}
 	m.readers++
-	kernel.RaceAcquire(unsafe.Pointer(m))
+	kernel.RaceAcquire(unsafe.Pointer(&m.readerSem))
 }
 
 //go:norace
@@ -206,13 +215,14 @@ func (m *RWMutex) RUnlock() {
 		return
 	}
 	if w.Dead() {
+		kernel.RaceReleaseMerge(unsafe.Pointer(&m.writerSem))
 		m.readers--
 		return
 	}
 	if m.readers <= 0 {
 		panic("sync: RUnlock of unlocked RWMutex")
 	}
-	kernel.RaceReleaseMerge(unsafe.Pointer(&m.readers))
+	kernel.RaceReleaseMerge(unsafe.Pointer(&m.writerSem))
 	m.readers--
 	if m.readers == 0 {
 		m.wakeAll(w)
